@@ -642,6 +642,7 @@ func init() {
 		checkKeyBytewise(p, r)
 		// position lists of unaligned tables hold arbitrary offsets
 		checkAlignFree(p, r)
+		checkObjListWhole(p, r)
 		// nil contracts on the RefsFor paths
 		cg := buildCallGraph(p)
 		reach := cg.reachable(hostileRoots(p, cg))
